@@ -133,6 +133,10 @@ OPS = {"add": "+", "sub": "-", "mul": "*", "div": "/", "rem": "%", "eq": "==", "
        "gt": ">", "ge": ">=", "and": "&&", "or": "||"}
 
 
+# anonymous record types of the program being printed: name -> fields (set by print_program)
+ANON = {}
+
+
 def roto_ty(ty):
     """type descriptor -> Roto type syntax. Descriptors: scalar name | 'str' | 'unit' | 'Tr' |
     ['opt', T] | ['list', T] | ['named', Name]"""
@@ -142,6 +146,8 @@ def roto_ty(ty):
         if ty[0] == "list":
             return "List[%s]" % roto_ty(ty[1])
         if ty[0] == "named":
+            if ty[1] in ANON:
+                return "{ %s }" % ", ".join("%s: %s" % (f, roto_ty(ft)) for f, ft in ANON[ty[1]])
             if len(ty) > 2 and ty[2]:
                 return "%s[%s]" % (ty[1], ", ".join(roto_ty(x) for x in ty[2]))
             return ty[1]
@@ -329,7 +335,11 @@ def print_program(prog):
     """prog: {types: [decl...], fns: {name: {ps, pts, rt, b, kind}}} -> Roto source"""
     p = Printer()
     out = []
+    ANON.clear()
+    ANON.update({t["n"]: t["fs"] for t in prog.get("types", []) if t.get("anon")})
     for t in prog.get("types", []):
+        if t.get("anon"):
+            continue
         gen = "[%s]" % ", ".join(t["ps"]) if t.get("ps") else ""
         if t["k"] == "record":
             out.append("record %s%s { %s }" % (t["n"], gen, ", ".join("%s: %s" % (f, roto_ty(ft)) for f, ft in t["fs"])))
@@ -357,7 +367,8 @@ def print_program(prog):
             # root module are imported, functions of other modules are called by path
             (tail if mod == mods[1] else tail).append("//@module %s" % mod)
             for t in prog.get("types", []):
-                tail.append("import pkg.%s;" % t["n"])
+                if not t.get("anon"):
+                    tail.append("import pkg.%s;" % t["n"])
         dst = out if mod == "" else tail
         for name, f in prog["fns"].items():
             if f.get("mod", "") != mod:
